@@ -325,7 +325,7 @@ def make_cases(rng, n_schemas: int, per_schema: int, depth: int = 3, foreign: in
     n_indexed = max(5, n_schemas // 3)
     for si in range(n_schemas + n_indexed):
         indexed = si >= n_schemas
-        sg = gen.SchemaGen(rng, gen.GenOpts(depth=depth, coq_only=True, named=True, mixin=rng.random() < 0.4))
+        sg = gen.SchemaGen(rng, gen.GenOpts(depth=depth, coq_only=True, named=True, literals=True, mixin=rng.random() < 0.4))
         sg.tag = f"s{si}_"
         c = rng.random()
         if indexed:
